@@ -240,6 +240,131 @@ Definition entry_ok (e : entry) : bool :=
   end.
 Definition row_ok (e : entry) : bool := if in_scope e then entry_ok e else true.
 
+Fixpoint forallb2_ident (a b : list ident) : bool :=
+  match a, b with
+  | [], [] => true
+  | x :: a', y :: b' => ident_beq x y && forallb2_ident a' b'
+  | _, _ => false
+  end.
+
+(* ------------------------------------------------------------------ non-variable places (place_ops.go, place_set.go, place_shifts.go) *)
+(* Single evaluation, syntactically: the calls  f(env)  of captured functions listed in evaluation order, provided every one
+   of them sits in a position that is executed exactly once (not in a branch of an if, not in a loop, not on the right of
+   && / ||) and nothing in the body is opaque.  None = some call is conditional / repeated, or the body is outside the
+   fragment. *)
+Definition is_arith_op (op : binop) : bool :=
+  match op with Add | Sub | Mul | Quo | Rem | And | Or | Xor | AndNot | Shl | Shr => true | _ => false end.
+
+Fixpoint ecalls (e : expr) : option (list ident) :=
+  let seq2 a b := match ecalls a, ecalls b with Some x, Some y => Some (x ++ y) | _, _ => None end in
+  match e with
+  | EVar _ | ELit _ | EStr _ | EKindLit _ | ETypeLit _ | EGlob _ => Some []
+  | EBin LAnd a b | EBin LOr a b =>
+      match ecalls a, ecalls b with Some x, Some [] => Some x | _, _ => None end
+  | EBin _ a b => seq2 a b
+  | EUn _ a | EConv _ a | EAssert _ a | ETypeOf a | ESel a _ | EMeth a _ | EDeref a | EAddr a | EProj _ a => ecalls a
+  | ECall0 f => ecalls f
+  | ECall1 (EVar f) (EVar V_env) => Some [f]
+  | ECall1 f a => seq2 f a
+  | ECall2 f a b => match ecalls f, ecalls a, ecalls b with Some x, Some y, Some z => Some (x ++ y ++ z) | _, _, _ => None end
+  | ECall3 f a b c =>
+      match ecalls f, ecalls a, ecalls b, ecalls c with Some x, Some y, Some z, Some w => Some (x ++ y ++ z ++ w) | _, _, _, _ => None end
+  | EIndex a i => seq2 a i
+  | ESlice a lo hi => match ecalls a, ecalls lo, ecalls hi with Some x, Some y, Some z => Some (x ++ y ++ z) | _, _, _ => None end
+  | EOpaque _ => None
+  end.
+
+Fixpoint scalls (s : stmt) : option (list ident) :=
+  let seq2 a b := match a, b with Some x, Some y => Some (x ++ y) | _, _ => None end in
+  match s with
+  | SSkip | SReturn0 => Some []
+  | SSeq a b => seq2 (scalls a) (scalls b)
+  | SReturn e | SDefine _ e | SExpr e | SIncDec _ e => ecalls e
+  | SReturn2 a b | SAssign a b | SOpAssign _ a b => seq2 (ecalls a) (ecalls b)
+  | SBlock b => scalls b
+  | SIf c t f => match ecalls c, scalls t, scalls f with Some x, Some [], Some [] => Some x | _, _, _ => None end
+  | SFor _ _ _ _ => None
+  | SOpaque _ => None
+  end.
+
+(* the arithmetic / shift operators that occur in a body *)
+Fixpoint eops (e : expr) : list binop :=
+  match e with
+  | EBin op a b => (if is_arith_op op then [op] else []) ++ eops a ++ eops b
+  | EUn _ a | EConv _ a | EAssert _ a | ETypeOf a | ESel a _ | EMeth a _ | EDeref a | EAddr a | EProj _ a | ECall0 a => eops a
+  | ECall1 f a => eops f ++ eops a
+  | ECall2 f a b => eops f ++ eops a ++ eops b
+  | ECall3 f a b c => eops f ++ eops a ++ eops b ++ eops c
+  | EIndex a i => eops a ++ eops i
+  | ESlice a lo hi => eops a ++ eops lo ++ eops hi
+  | _ => []
+  end.
+Fixpoint sops (s : stmt) : list binop :=
+  match s with
+  | SSeq a b => sops a ++ sops b
+  | SReturn e | SDefine _ e | SExpr e => eops e
+  | SReturn2 a b | SAssign a b => eops a ++ eops b
+  | SOpAssign op a b => (if is_arith_op op then [op] else []) ++ eops a ++ eops b
+  | SBlock b => sops b
+  | SIf c t f => eops c ++ sops t ++ sops f
+  | SFor i c p b => sops i ++ eops c ++ sops p ++ sops b
+  | _ => []
+  end.
+
+Definition place_fn_ops (f : fname) : option (list binop) :=   (* the operators the body may contain; [] for x = e *)
+  match f with
+  | FN_other 2371809298 | FN_other 3440442980 => Some [Add]
+  | FN_other 1979215301 | FN_other 147144937 => Some [Sub]
+  | FN_other 4192245697 | FN_other 3470413693 => Some [Mul]
+  | FN_other 486257158 | FN_other 1353110400 => Some [Quo]
+  | FN_other 2251665411 | FN_other 1186776887 => Some [Rem]
+  | FN_other 1553836284 | FN_other 145221878 => Some [And]
+  | FN_other 2865435632 | FN_other 2067008098 => Some [Or]
+  | FN_other 274123776 | FN_other 4021002866 => Some [Xor]
+  | FN_other 1660121273 | FN_other 3722436469 => Some [AndNot]
+  | FN_other 815227768 | FN_other 1747258922 => Some [Shl]
+  | FN_other 4016076242 | FN_other 2965270308 => Some [Shr]
+  | FN_other 821825487 => Some [Shr; Add]          (* placeQuoPow2: (x + roundup) >> shift *)
+  | FN_other 1711412711 | FN_other 4216241155 => Some []
+  | _ => None
+  end.
+
+(* the captured variable bound to place.Fun / place.MapKey *)
+Definition let_of (e : entry) (rhs : expr) : option ident :=
+  match find (fun xe => expr_beq (snd xe) rhs) (e_lets e) with Some (x, _) => Some x | None => None end.
+Definition placeFunE := ESel (EVar V_place) F_Fun.
+Definition placeKeyE := ESel (EVar V_place) F_MapKey.
+
+Definition ends_with_epilogue (s : stmt) : bool :=
+  (fix go (s : stmt) : bool :=
+     match s with
+     | SSeq a b => stmt_beq b epilogue || go b
+     | _ => false
+     end) s.
+
+(* statement closures of the place files: func(env *Env) (Stmt, *Env) *)
+Definition is_stmt_closure (e : entry) : bool := tys_beq (e_results e) stmt_results.
+
+Definition place_row_ok (e : entry) : bool :=
+  match place_fn_ops (e_func e), let_of e placeFunE with
+  | Some allowed, Some pf =>
+      let kf := let_of e placeKeyE in
+      match scalls (e_body e) with
+      | None => false
+      | Some calls =>
+          let expected_head := match kf with Some k => [pf; k] | None => [pf] end in
+          let rest := skipn (length expected_head) calls in
+          (* place function first, then the key function, then at most one operand function; each exactly once *)
+          forallb2_ident (firstn (length expected_head) calls) expected_head
+          && (Nat.leb (length rest) 1)
+          && forallb (fun x => negb (ident_beq x pf) && match kf with Some k => negb (ident_beq x k) | None => true end) rest
+          && ends_with_epilogue (e_body e)
+          && forallb (fun o => existsb (binop_beq o) allowed) (sops (e_body e))
+      end
+  | Some _, None => false
+  | None, _ => true
+  end.
+
 (* ------------------------------------------------------------------ statement semantics *)
 Section Exec.
   Variable F : Type.
